@@ -86,3 +86,102 @@ func Wait(extra func() bool) {
 		}
 	}
 }
+
+// ---------------------------------------------------------------- wall-clock safety net
+
+// sutStates: states of the goroutines of the system under test — every goroutine except the caller
+// and the harness goroutine that spins in Wait.  runnable = running / runnable / syscall / preempted
+// (work is being done or can be done); blocked = waiting for a mutex or on a channel send (Wait never
+// reports quiescence while such a goroutine exists).
+func sutStates() (runnable, blocked []string) {
+	buf := make([]byte, 1<<18)
+	for {
+		n := runtime.Stack(buf, true)
+		if n < len(buf) {
+			buf = buf[:n]
+			break
+		}
+		buf = make([]byte, 2*len(buf))
+	}
+	first := true
+	for _, g := range strings.Split(string(buf), "\n\n") {
+		if !strings.HasPrefix(g, "goroutine ") {
+			continue
+		}
+		if first {
+			first = false
+			continue
+		}
+		if strings.Contains(g, "quiesce.Wait(") || strings.Contains(g, "quiesce.allParked(") {
+			continue
+		}
+		hdr := g
+		if i := strings.IndexByte(g, '\n'); i >= 0 {
+			hdr = g[:i]
+		}
+		a, b := strings.IndexByte(hdr, '['), strings.LastIndexByte(hdr, ']')
+		if a < 0 || b < a {
+			continue
+		}
+		st := hdr[a+1 : b]
+		switch {
+		case strings.HasPrefix(st, "running"), strings.HasPrefix(st, "runnable"), strings.HasPrefix(st, "syscall"),
+			strings.HasPrefix(st, "copystack"), strings.HasPrefix(st, "preempted"):
+			runnable = append(runnable, hdr)
+		case strings.HasPrefix(st, "sync.Mutex.Lock"), strings.HasPrefix(st, "sync.RWMutex"), strings.HasPrefix(st, "chan send"):
+			blocked = append(blocked, hdr)
+		}
+	}
+	return
+}
+
+// Watch is a wall-clock safety net around one case.  It never turns slowness into a verdict: after
+// `grace` it looks at the goroutine states every `every`; only if in three samples in a row NO
+// goroutine of the system under test is runnable (they are parked, or blocked on a mutex / channel
+// send for good, so that the harness's scheduler cannot reach a quiescent point) does it call
+// onHang.  While there is runnable work it keeps waiting, up to `limit`, then calls onTimeout (a
+// harness problem — slow machine or livelock —, never a known finding).
+type Watch struct{ stop chan struct{} }
+
+func NewWatch(grace, every, limit time.Duration, onHang func(detail string), onTimeout func(detail string)) *Watch {
+	w := &Watch{stop: make(chan struct{})}
+	go func() {
+		start := time.Now()
+		t := time.NewTimer(grace)
+		defer t.Stop()
+		for {
+			select {
+			case <-w.stop:
+				return
+			case <-t.C:
+			}
+			idle := 0
+			var lastBlocked []string
+			for i := 0; i < 3; i++ {
+				r, b := sutStates()
+				if len(r) == 0 {
+					idle++
+					lastBlocked = b
+				}
+				select {
+				case <-w.stop:
+					return
+				case <-time.After(300 * time.Millisecond):
+				}
+			}
+			if idle == 3 {
+				onHang("after " + time.Since(start).Round(time.Second).String() + " no goroutine of the system under test is runnable; blocked for good: " + strings.Join(lastBlocked, "; "))
+				return
+			}
+			if time.Since(start) > limit {
+				r, _ := sutStates()
+				onTimeout("still running after " + time.Since(start).Round(time.Second).String() + " (runnable: " + strings.Join(r, "; ") + ")")
+				return
+			}
+			t.Reset(every)
+		}
+	}()
+	return w
+}
+
+func (w *Watch) Stop() { close(w.stop) }
